@@ -4,6 +4,7 @@ import Driver.FastKeccak
 import Aurora.Model.Cac
 import Aurora.Model.HashTrie
 import Aurora.Model.Joiner
+import Aurora.Model.EncUpload
 /-!
 Shared driver for the file pipeline properties C01 / C02 / C07.
 
@@ -18,9 +19,26 @@ Ops (one output line each):
 * `read <len> <cap>` — `Read`; `seek <off> <whence>`; `readall` — `file.JoinReadAll`
 * `new pipe` — the writes go through `file.ChunkPipe` + `builder.FeedPipeline` on the Go side (same model)
 
-Encrypted mode: the Lean side cannot reproduce the random keys/padding; it runs the same pipeline
-and joiner models with branching 4096 and 64-byte references whose "key" half is a copy of the
-address (`dec` = identity).  Only sizes and read results are compared in that mode, not references.
+Encrypted mode (`new enc`, and `new encsmall <C> <B>`: the same writers with a small feeder chunk
+size / branching, writer side only): the model is `Aurora.EncUpload.upload` (feeder → encryption →
+bmt → store → hashtrie with 64-byte references) with real Keccak-256 for the keystream and the BMT.
+The keys and padding bytes drawn by the real code are oracle values: the runner annotates the `sum`
+line with one token `<offset>:<span>:<key hex>:<padding hex>` per chunk (read back from the
+references and the stored chunks); the driver checks their admissibility (32-byte key; a padding of
+the wrong length makes `EncryptChunk`'s model fail → `bad-annot`) and runs the whole upload with
+that oracle at `sum`.  `write` only runs the feeder (the returned count does not depend on the
+draws).  Compared: the full 64-byte reference, the number of Puts and the digest of the Put multiset
+(addresses recomputed by the model from the observed keys / padding), then size and every read
+through `EncUpload.encGet` (the decrypting getter, memoised per reference: every chunk is decrypted
+once at `open`).
+
+`new synth <seed> <size> <period>`: a *synthetic* encrypted file for the reader only (no upload): the
+canonical tree of a `size`-byte periodic content with 4096 references of 64 bytes per intermediate
+chunk, addresses `keccak("A" ‖ le64 off ‖ le64 span)` (the joiner never re-hashes), keys
+`keccak("K" ‖ le64 off ‖ le64 span)`, zero padding; chunks are produced on demand from their
+position by the encryption model, so files beyond 1 GiB (two intermediate levels with the real
+constants) can be read through the joiner model and the real joiner.  `readall` answers
+`noreadall` there.
 
 The chunk reference function is `fastBmt` (ByteArray BMT over `Driver.Fast.keccak`), memoised per
 case on the chunk content.  It is cross-checked against the list model `Aurora.Cac.hashWith` by the
@@ -71,13 +89,70 @@ def crefWith (memo : Memo) (span payload : Bytes) : Bytes :=
   | some r => r
   | none => fastBmt span payload
 
-/-- "encrypted" stand-in: 64-byte reference = address ‖ address -/
-def crefEnc (memo : Memo) (span payload : Bytes) : Bytes :=
-  let r := crefWith memo span payload
-  r ++ r
+/-- Keccak-256 on byte lists (keystream hash of the encryption model) -/
+def keccakL (b : Bytes) : Bytes := (Driver.Fast.keccak ⟨b.toArray⟩).toList
 
-inductive Mode | none | plain | enc | small (c b : Nat)
+/-- padding size / reference size of `chunk_encryption.go` -/
+def encP : Nat := 262144
+def encR : Nat := 64
+
+inductive Mode | none | plain | enc | small (c b : Nat) | encsmall (c b : Nat) | synth
 deriving Repr, DecidableEq
+
+def Mode.isEnc : Mode → Bool
+  | .enc => true
+  | .encsmall _ _ => true
+  | .synth => true
+  | _ => false
+
+/-! ### synthetic encrypted files (reader only) -/
+
+structure Synth where
+  pat : Array UInt8                         -- one period of the content
+  size : Nat
+  index : Std.HashMap Bytes (Nat × Nat)     -- address ↦ position (offset, span)
+
+def synthAddr (off span : Nat) : Bytes := keccakL ([0x41] ++ Aurora.Cac.le64 off ++ Aurora.Cac.le64 span)
+def synthKey (off span : Nat) : Bytes := keccakL ([0x4b] ++ Aurora.Cac.le64 off ++ Aurora.Cac.le64 span)
+
+/-- size of a full child and number of children of the canonical node of span `s > C` -/
+def synthKids (s : Nat) : Nat × Nat :=
+  let h := (List.range 8).find? (fun h => s ≤ C * 4096 ^ (h + 1)) |>.getD 8
+  let fl := C * 4096 ^ h
+  (fl, (s + fl - 1) / fl)
+
+/-- all positions of the canonical tree below `(off, span)` -/
+def synthPositions : Nat → Nat → Nat → List (Nat × Nat)
+  | 0, _, _ => []
+  | fuel + 1, off, span =>
+    if span ≤ C then [(off, span)]
+    else
+      let (fl, k) := synthKids span
+      (off, span) :: (List.range k).flatMap (fun i => synthPositions fuel (off + i * fl) (min fl (span - i * fl)))
+
+def Synth.mk' (seed size period : Nat) : Synth :=
+  { pat := (Driver.genBytes seed period).toArray, size := size,
+    index := (synthPositions 9 0 size).foldl (fun m p => m.insert (synthAddr p.1 p.2) p) {} }
+
+/-- the plain payload of the chunk at a position -/
+def Synth.payload (sy : Synth) (off span : Nat) : Bytes :=
+  if span ≤ C then (List.range span).map (fun i => sy.pat[(off + i) % sy.pat.size]!)
+  else
+    let (fl, k) := synthKids span
+    (List.range k).flatMap (fun i =>
+      let o := off + i * fl
+      let s := min fl (span - i * fl)
+      synthAddr o s ++ synthKey o s)
+
+/-- the stored (encrypted) chunk for an address: the encryption model on `span ‖ payload` -/
+def Synth.lookup (sy : Synth) (a : Bytes) : Option Bytes :=
+  match sy.index.get? a with
+  | none => none
+  | some (off, span) =>
+    let pl := sy.payload off span
+    let c := Aurora.EncUpload.encT keccakL encP encR (synthKey off span) (List.replicate (encP - pl.length) 0)
+      (Aurora.Cac.le64 span ++ pl)
+    some (c.1 ++ c.2)
 
 structure St where
   mode : Mode := .none
@@ -91,6 +166,8 @@ structure St where
   summed : Bool := false
   failed : Bool := false
   j : Option J := none
+  cache : Std.HashMap Bytes (Except Aurora.Joiner.Err Bytes) := {}   -- encrypted mode: `encGet`, memoised
+  synth : Option Synth := none
 
 def fnv (bs : Bytes) : UInt64 :=
   bs.foldl (fun h b => (h ^^^ b.toUInt64) * 0x100000001b3) 0xcbf29ce484222325
@@ -101,13 +178,11 @@ def hex64 (w : UInt64) : String :=
 def St.params (st : St) : Nat × Nat :=
   match st.mode with
   | .small c b => (c, b)
+  | .encsmall c b => (c, b)
   | .enc => (C, Aurora.Tree.encBranching)
   | _ => (C, Aurora.Tree.branching)
 
-def St.cref (st : St) : Bytes → Bytes → Bytes :=
-  match st.mode with
-  | .enc => crefEnc st.memo
-  | _ => crefWith st.memo
+def St.cref (st : St) : Bytes → Bytes → Bytes := crefWith st.memo
 
 /-- move the model's Put log into the store / counters -/
 def St.drain (st : St) : St := Id.run do
@@ -129,6 +204,11 @@ def St.memoise (st : St) (chunks : List Bytes) : St := Id.run do
 
 def St.write1 (st : St) (b : Bytes) : St × Option Int :=
   let (c, bb) := st.params
+  if st.mode.isEnc then
+    -- encrypted: only the feeder runs now; the upload model runs at `sum`, when the oracle is known
+    let (f, _, n) := Aurora.Feeder.write c st.up.feeder b
+    ({ st with up := { st.up with feeder := f }, segsRev := b :: st.segsRev }, some n)
+  else
   let chunks := (Aurora.Feeder.write c st.up.feeder b).2.1
   let st := st.memoise chunks
   let (u, n) := st.up.write st.cref c bb b
@@ -145,17 +225,94 @@ def readOut (n : Nat) (err : Option IoErr) (mem : Bytes) : String :=
   let tail := if (mem.drop n).all (· == 0xEE) then "clean" else "dirty"
   s!"{n} {e} {desc} {tail}"
 
-def lookupFn (st : St) : Bytes → Option Bytes := fun a => st.store.get? a
+def lookupFn (st : St) : Bytes → Option Bytes :=
+  match st.synth with
+  | some sy => sy.lookup
+  | none => fun a => st.store.get? a
+
+def encGetRaw (st : St) : Bytes → Except Aurora.Joiner.Err Bytes :=
+  Aurora.EncUpload.encGet keccakL encP encR Aurora.Tree.hashBytes (lookupFn st)
 
 def getFn (st : St) : Bytes → Except Aurora.Joiner.Err Bytes :=
-  storeGet (lookupFn st) (fun _ d => d) Aurora.Tree.hashBytes
+  if st.mode.isEnc then
+    fun ref => match st.cache.get? ref with
+      | some r => r
+      | none => encGetRaw st ref
+  else storeGet (lookupFn st) (fun _ d => d) Aurora.Tree.hashBytes
 
 def depthFuel : Nat := 12
 
-def step (st : St) (op : List String) : St × String :=
+def splitAnnot (op : List String) : List String × List String :=
+  match op.span (· ≠ "|") with
+  | (a, _ :: b) => (a, b)
+  | (a, []) => (a, [])
+
+/-- the oracle annotation: one `<offset>:<span>:<key>:<padding>` token per chunk -/
+def parseOracle (ann : List String) : Option (Std.HashMap (Nat × Nat) (Bytes × Bytes)) :=
+  ann.foldl (fun acc tok =>
+    match acc with
+    | none => none
+    | some m =>
+      match tok.splitOn ":" with
+      | [o, s, k, p] =>
+        match o.toNat?, s.toNat?, Driver.hexToBytes k, (if p = "-" then some [] else Driver.hexToBytes p) with
+        | some o, some s, some k, some p => if k.length = 32 then some (m.insert (o, s) (k, p)) else none
+        | _, _, _, _ => none
+      | _ => none) (some {})
+
+/-- memoise `encGet` on every reference reachable from `ref` (each chunk is decrypted once) -/
+def warm (st : St) : Nat → Bytes → Std.HashMap Bytes (Except Aurora.Joiner.Err Bytes) →
+    Std.HashMap Bytes (Except Aurora.Joiner.Err Bytes)
+  | 0, _, cache => cache
+  | fuel + 1, ref, cache =>
+    if cache.contains ref then cache else
+    let r := encGetRaw st ref
+    let cache := cache.insert ref r
+    match r with
+    | .error _ => cache
+    | .ok d =>
+      let span := fromLe64 d
+      let payload := d.drop 8
+      if d.length < 8 ∨ span ≤ payload.length then cache
+      else (List.range (payload.length / encR)).foldl (fun c i => warm st fuel ((payload.drop (i * encR)).take encR) c) cache
+
+/-- `Sum()` of the encrypted pipeline with the observed oracle -/
+def sumEnc (st : St) (ann : List String) : St × String :=
+  let (c, bb) := st.params
+  if ann.isEmpty then ({ st with summed := true, failed := true }, "no-annot") else
+  match parseOracle ann with
+  | none => ({ st with summed := true, failed := true }, "bad-annot")
+  | some m =>
+    let orc : Nat → Nat → Bytes × Bytes := fun o s => (m.get? (o, s)).getD ([], [])
+    let (u, r) := Aurora.EncUpload.upload keccakL fastBmt encP encR orc c bb st.segsRev.reverse
+    -- an inadmissible draw (wrong padding length / missing position) makes the model of
+    -- `EncryptChunk` fail: the stored chunk then is not `8 + ChunkSize` bytes long
+    if u.puts.any (fun pd => pd.2.length ≠ 8 + encP) then ({ st with summed := true, failed := true }, "bad-annot") else
+    let st := { st with summed := true }
+    match r with
+    | none => ({ st with failed := true }, "err")
+    | some ref =>
+      let (store, dig) := u.puts.foldl (fun (acc : Std.HashMap Bytes Bytes × UInt64) pd =>
+        (acc.1.insert pd.1 pd.2, acc.2 + fnv (pd.1 ++ Aurora.Cac.le64 pd.2.length))) (st.store, st.pdig)
+      let st := { st with store := store, pdig := dig, nputs := u.puts.length, root := some ref }
+      (st, s!"ok {Driver.bytesToHex ref} {st.nputs} {hex64 st.pdig}")
+
+def step (st : St) (opl : List String) : St × String :=
+  let (op, ann) := splitAnnot opl
   match op with
   | ["new"] => ({ mode := .plain }, "ok")
   | ["new", "enc"] => ({ mode := .enc }, "ok")
+  | ["new", "synth", seed, size, period] =>
+    match seed.toNat?, size.toNat?, period.toNat? with
+    | some seed, some size, some period =>
+      if period = 0 ∨ period > C ∨ size > 16 * C * 4096 then (st, "bad-op") else
+      ({ mode := .synth, synth := some (Synth.mk' seed size period), summed := true,
+         root := some (synthAddr 0 size ++ synthKey 0 size) }, "ok")
+    | _, _, _ => (st, "bad-op")
+  | ["new", "encsmall", c, b] =>
+    match c.toNat?, b.toNat? with
+    | some c, some b => if c = 0 ∨ c > C ∨ b < 2 ∨ encR * b > encP then (st, "bad-op") else ({ mode := .encsmall c b }, "ok")
+    | _, _ => (st, "bad-op")
   | ["new", "pipe"] => ({ mode := .plain }, "ok")   -- ChunkPipe + FeedPipeline only re-segment the writes
   | ["new", "small", c, b] =>
     match c.toNat?, b.toNat? with
@@ -201,6 +358,7 @@ def step (st : St) (op : List String) : St × String :=
   | ["sum"] =>
     if st.summed then (st, "summed") else
     if st.failed then (st, "err") else
+    if st.mode.isEnc then sumEnc st ann else
     let (c, bb) := st.params
     let chunks := (Aurora.Feeder.sum st.up.feeder).2
     let st := st.memoise chunks
@@ -214,7 +372,6 @@ def step (st : St) (op : List String) : St × String :=
       let st := { st with root := some ref }
       if spec ≠ some ref then
         (st, s!"SPEC-MISMATCH model={Driver.bytesToHex ref} spec={match spec with | some s => Driver.bytesToHex s | none => "none"}")
-      else if st.mode = .enc then (st, s!"ok enc {st.nputs}")
       else (st, s!"ok {Driver.bytesToHex ref} {st.nputs} {hex64 st.pdig}")
   | ["open"] =>
     match st.root with
@@ -222,7 +379,11 @@ def step (st : St) (op : List String) : St × String :=
     | some ref =>
       match st.mode with
       | .small _ _ => (st, "nojoin")
+      | .encsmall _ _ => (st, "nojoin")
       | _ =>
+        -- synthetic files: only the root and its children are memoised (the tree is not walked)
+        let st := if st.mode = .synth then { st with cache := warm st 2 ref st.cache }
+          else if st.mode.isEnc then { st with cache := warm st depthFuel ref st.cache } else st
         match Aurora.Joiner.new (getFn st) ref with
         | .error _ => (st, "err")
         | .ok j => ({ st with j := some j }, s!"ok {j.size}")
@@ -247,6 +408,7 @@ def step (st : St) (op : List String) : St × String :=
         ({ st with j := some j' }, readOut r.n r.err r.mem)
       | _, _ => (st, "bad-op")
     | ["readall"] =>
+      if st.mode = .synth then (st, "noreadall") else
       -- `file.JoinReadAll`: ⌈size/C⌉ times `Read` into a C-byte buffer; any error (EOF included) aborts
       let iters := (j.size + C - 1) / C
       let (j', tot, dig, ok) := (List.range iters).foldl (fun (acc : J × Nat × UInt64 × Bool) _ =>
